@@ -21,16 +21,17 @@ Local Open Scope string_scope.
 (* For every macro name, every well-formed parameter list (or none) and EVERY
    replacement list v:  -D'HEAD=v' yields exactly what `#define HEAD v` yields
    (the same macro value, or the same error), and -DHEAD yields what
-   `#define HEAD 1` yields.  Token level: the lexing of "HEAD=v" into
-   HEAD, =, v is the subject of the differential run (finding
-   dashD-value-starts-with-equals is exactly where it fails). *)
+   `#define HEAD 1` yields.  Token level: macro_from_definition_string splits
+   the string at the first '=' with str.partition and lexes HEAD + blank + v;
+   that split is outside the model (the differential run renders real -D
+   strings, including values that begin with '='). *)
 Theorem C03_cmdline_define :
   forall name ps, wf_head ps ->
-    (forall v w w' we,
-        macro_from_deftokens (head w name ps ++ eq_tok we :: v)
+    (forall v w w',
+        macro_from_dash_d (head w name ps ++ set_w_hd true v) (List.length (head w name ps)) true
         = macro_from_define (head w' name ps ++ set_w_hd true v))
     /\ (forall w w',
-        macro_from_deftokens (head w name ps)
+        macro_from_dash_d (head w name ps) (List.length (head w name ps)) false
         = macro_from_define (head w' name ps ++ [default_tok true]))
     /\ Gen.C03_tables.default_expansion = "1" /\ Gen.C03_tables.define_separator = "=".
 Proof.
@@ -72,11 +73,6 @@ Print Assumptions C03_objlike.
 (* ------------------------------------------------------------------ *)
 (* full conformance is refuted: one closed witness per finding class    *)
 (* ------------------------------------------------------------------ *)
-Theorem C03_conformance_refuted_dashD_value_starts_with_equals :
-  exists cs input, disagree cs input.
-Proof. exact (ex_intro _ _ (ex_intro _ _ refuted_dashD_equals)). Qed.
-Print Assumptions C03_conformance_refuted_dashD_value_starts_with_equals.
-
 Theorem C03_conformance_refuted_variadic_comma_white_space :
   exists cs input, disagree cs input.
 Proof. exact (ex_intro _ _ (ex_intro _ _ refuted_variadic_comma_white)). Qed.
@@ -104,14 +100,18 @@ Print Assumptions C03_conformance_refuted_depth_limit.
 (* behaviour disagrees with S on the witness, the current model agrees  *)
 (* ------------------------------------------------------------------ *)
 Theorem C03_repaired_defects_refuted_and_now_conform :
-     was_wrong (run_M_with true cur_cat_fix cur_str_white cur_base cur_rescan cur_va_fix)
+     (S_ok [def_obj ViaDorig [tI "A"; tO "=="; tO "="] "A" [tO "=="]] [tI "A"]
+      /\ run_M_case [def_obj ViaDorig [tI "A"; tO "=="; tO "="] "A" [tO "=="]] [tI "A"]
+         <> run_S_case [def_obj ViaDorig [tI "A"; tO "=="; tO "="] "A" [tO "=="]] [tI "A"]
+      /\ agree [def_obj (ViaD 1 true) [tI "A"; tOw "=="] "A" [tO "=="]] [tI "A"])
+  /\ was_wrong (run_M_with true cur_cat_fix cur_str_white cur_base cur_rescan cur_va_fix)
                w_str [tI "S"; tP "("; tIw "a"; tP ")"]
   /\ was_wrong (run_M_with cur_lead false cur_str_white cur_base cur_rescan cur_va_fix)
                w_cat [tI "F"; tP "("; tI "a"; tP ","; tP ")"]
   /\ was_wrong (run_M_with cur_lead false cur_str_white cur_base cur_rescan cur_va_fix)
                w_cat3 [tI "F"; tP "("; tP ","; tP ","; tN "1"; tP ")"]
   /\ was_wrong (run_M_with cur_lead cur_cat_fix cur_str_white (Some "None") cur_rescan cur_va_fix)
-               [def_obj false [tIw "None"; tNw "1"] "None" [tN "1"]] [tI "None"]
+               [def_obj ViaDefine [tIw "None"; tNw "1"] "None" [tN "1"]] [tI "None"]
   /\ was_wrong (run_M_with cur_lead cur_cat_fix cur_str_white cur_base true cur_va_fix)
                w_fg [tI "f"; tP "("; tN "2"; tP ")"; tP "("; tN "9"; tP ")"]
   /\ was_wrong (run_M_with cur_lead cur_cat_fix cur_str_white cur_base true cur_va_fix) w_lp [tI "X"]
@@ -120,9 +120,9 @@ Theorem C03_repaired_defects_refuted_and_now_conform :
   /\ was_wrong (run_M_with cur_lead cur_cat_fix false cur_base cur_rescan cur_va_fix)
                w_tb [tI "T"; tP "("; tI "b"; tP ")"].
 Proof.
-  exact (conj original_leading_blank (conj original_empty_paste_operand (conj original_two_empty_paste_operands
+  exact (conj original_dashD_equals (conj original_leading_blank (conj original_empty_paste_operand (conj original_two_empty_paste_operands
         (conj original_macro_named_None (conj original_rescan_following_source
-        (conj original_rescan_paren_indirection (conj original_variadic_unused original_string_white))))))).
+        (conj original_rescan_paren_indirection (conj original_variadic_unused original_string_white)))))))).
 Qed.
 Print Assumptions C03_repaired_defects_refuted_and_now_conform.
 
@@ -145,7 +145,7 @@ Qed.
    and the macro it builds is a real one *)
 Example C03_nonvacuous_cmdline :
   wf_head (Some [PName "a"; PName "b"; PDots])
-  /\ exists m, macro_from_deftokens (head false "F" (Some [PName "a"; PName "b"; PDots])
-                                      ++ eq_tok false :: [tI "a"; tO "##"; tI "b"; tIw "__VA_ARGS__"]) = Ok m
+  /\ exists m, macro_from_dash_d (head false "F" (Some [PName "a"; PName "b"; PDots])
+                                   ++ [tIw "a"; tO "##"; tI "b"; tIw "__VA_ARGS__"]) 10 true = Ok m
                /\ m_args m = ["a"; "b"; "__VA_ARGS__"] /\ m_variadic m = true /\ m_strcat m = true.
 Proof. split; [cbn; auto|]. eexists. vm_compute. repeat split. Qed.
